@@ -243,3 +243,84 @@ def c07_sched(d):
     return {"status": "refuted" if ok else "confirmed", "observed": {"history": hist, "num_iters": int(sch.num_iters)},
             "expected": "factor non-decreasing and the step counter advanced once per call"}
   return {"status": "unsupported"}
+
+
+def _log2_exact(v):
+  """(e, is_power_of_two) for a positive Fraction v: e = floor(log2 v)."""
+  e = 0
+  while Fraction(2) ** e > v:
+    e -= 1
+  while Fraction(2) ** (e + 1) <= v:
+    e += 1
+  return e, Fraction(2) ** e == v
+
+
+@replayer("q_po2")
+def q_po2(d):
+  w = d["witness"]
+  rep = w["__replay__"]
+  q, kw = build(rep)
+  clause = d["clause"]
+  x = f32(F(w.get("x", 0)))
+  y = apply(q, [x])[0]
+  obs = {"class": rep["class"], "kwargs": {k: str(v) for k, v in kw.items()}, "x": str(x), "q(x)": str(y)}
+  if clause == "enclosed":
+    mx, mn = Fraction(float(q.max())), Fraction(float(q.min()))
+    obs.update({"min()": str(mn), "max()": str(mx)})
+    return {"status": "confirmed" if not (mn <= y <= mx) else "refuted", "observed": obs}
+  if clause == "idem":
+    y2 = apply(q, [y])[0]
+    obs["q(q(x))"] = str(y2)
+    return {"status": "confirmed" if y2 != y else "refuted", "observed": obs}
+  if clause == "le_max":
+    mv = Fraction(kw["max_value"])
+    return {"status": "confirmed" if abs(y) > mv else "refuted", "observed": obs, "expected": "|q(x)| <= max_value"}
+  if clause in ("mono_pos", "mono_neg"):
+    x2 = f32(F(w.get("x2", 0)))
+    y2 = apply(q, [x2])[0]
+    obs.update({"x2": str(x2), "q(x2)": str(y2)})
+    pre = (0 <= x <= x2) if clause == "mono_pos" else (x <= x2 < 0)
+    return {"status": "confirmed" if pre and y > y2 else "refuted", "observed": obs}
+  if clause == "sign":
+    relu = rep["class"] == "quantized_relu_po2"
+    slope = kw.get("negative_slope", 0)
+    if relu and not slope:
+      bad = y <= 0
+    else:
+      bad = (x >= 0 and y <= 0) or (x < 0 and y >= 0)
+    return {"status": "confirmed" if bad else "refuted", "observed": obs}
+  if clause in ("value", "exp_range", "nearest"):
+    if y == 0:
+      return {"status": "confirmed", "observed": obs, "expected": "a signed power of two"}
+    e, is_p2 = _log2_exact(abs(y))
+    bits = int(kw["bits"])
+    relu = rep["class"] == "quantized_relu_po2"
+    mv = kw.get("max_value")
+    need = 0 if (mv is not None and mv <= 1) else 1
+    eff = bits - (0 if relu else 1) - need
+    emin, emax = -(2 ** eff), 2 ** eff - 1
+    obs.update({"exponent": e, "emin": emin, "emax": emax})
+    bad = (not is_p2) or not (emin <= e <= emax)
+    if not bad and clause in ("value", "nearest"):
+      slope = kw.get("negative_slope", 0) if relu else 0
+      if relu:
+        mag = x if x >= 0 else (Fraction(float(slope)) * -x if slope else Fraction(0))
+      else:
+        mag = abs(x)
+      eps = Fraction(1e-07)
+      if mag < eps:
+        bad = e != emin
+      else:
+        xf = min(mag, Fraction(mv)) if mv is not None else mag
+        le, _ = _log2_exact(xf)
+        if kw.get("log2_rounding", "rnd") == "floor":
+          tgt = le
+          ok = min(max(tgt, emin), emax) == e
+        else:
+          # nearest in log scale: xf^2 vs 2^(2le+1); ties (exactly sqrt2*2^le) cannot occur for rationals
+          tgt = le + (1 if xf * xf > Fraction(2) ** (2 * le + 1) else 0)
+          ok = min(max(tgt, emin), emax) == e
+        bad = not ok
+    return {"status": "confirmed" if bad else "refuted", "observed": obs,
+            "expected": "sign * 2^e, e the rounded log2 of the clamped magnitude clipped to [emin, emax]"}
+  return {"status": "unsupported", "detail": clause}
